@@ -1,4 +1,133 @@
-(* C18 stub *)
-From DV Require Import Model.Chron.
-Theorem C18_stub : True. Proof. exact I. Qed.
-Print Assumptions C18_stub.
+(* C18 -- The execution history records every run once; queries return the
+   window.  Property theorems only; proofs live in Proofs/ChronProofs.v. *)
+From DV Require Import Model.Chron Proofs.ChronProofs.
+From Coq Require Import List ZArith Bool Sorting.Sorted Sorting.Permutation.
+Import ListNotations.
+Open Scope Z_scope.
+
+(* ---- an append adds exactly one copy of the entry, to its own file, at the
+   end; every file keeps its earlier entries in order; no second file for the
+   same (day, run id) appears ---- *)
+Theorem C18_append_once : forall j e,
+  (forall d r, lookup (append j e) d r
+               = lookup j d r ++
+                 (if (d =? day_of (e_completed e)) && (r =? e_runid e) then [e] else [])) /\
+  Permutation (all_entries (append j e)) (e :: all_entries j) /\
+  (NoDup (map fkey j) -> NoDup (map fkey (append j e))).
+Proof.
+  intros j e. split; [|split].
+  - intros d r. apply C_lookup_append_to.
+  - apply C_all_append_to.
+  - apply C_nodup_append_to.
+Qed.
+Print Assumptions C18_append_once.
+
+(* ---- schedule.complete records the reply exactly once with its data.
+   PARTIAL: this is the chronicle step of complete(); that every reply leads
+   to exactly one complete() call is C03_applied_once / C05_recorded of the
+   scheduler model (section 7.0), not composed here ---- *)
+Theorem C18_complete_once_partial : forall j now runid target task status id,
+  let e := mkE now runid target task status id in
+  Permutation (all_entries (complete j now runid target task status id)) (e :: all_entries j) /\
+  lookup (complete j now runid target task status id) (day_of now) runid
+  = lookup j (day_of now) runid ++ [e].
+Proof.
+  intros j now runid target task status id e. split.
+  - apply C_all_append_to.
+  - unfold complete, append. rewrite C_lookup_append_to. cbn [e_completed e_runid].
+    rewrite !Z.eqb_refl. reflexivity.
+Qed.
+Print Assumptions C18_complete_once_partial.
+
+(* ---- after a history of appends the journal holds exactly the appended
+   entries, each in the file of its day ---- *)
+Theorem C18_history : forall es,
+  wf (fold_left append es []) /\ Permutation (all_entries (fold_left append es [])) es.
+Proof. intros es. split; [apply C_wf_history|apply C_all_history]. Qed.
+Print Assumptions C18_history.
+
+(* ---- find(after, before): exactly the recorded entries of the requested
+   status with after < completed < before, newest first (limit is ignored) ---- *)
+Theorem C18_window : forall c j a b limit succ now,
+  cal_ok c -> wf j ->
+  exists l, Chron.find c j (Some a) (Some b) limit succ now = Ok l /\
+            Permutation l (filter (in_window a b (status_code succ)) (all_entries j)) /\
+            StronglySorted key_ge l.
+Proof.
+  intros c j a b limit succ now OK Hw. exists (full j a b (status_code succ)).
+  split; [apply C_find_window; exact OK|]. split; [apply C_full_perm|apply C_full_sorted]; exact Hw.
+Qed.
+Print Assumptions C18_window.
+
+(* the same, for the journal written by any history of appends and the
+   calendar instance the model is evaluated with: no hypothesis left *)
+Theorem C18_window_history : forall es a b limit succ now,
+  exists l, Chron.find greg (fold_left append es []) (Some a) (Some b) limit succ now = Ok l /\
+            Permutation l (filter (in_window a b (status_code succ)) es) /\
+            StronglySorted key_ge l.
+Proof.
+  intros es a b limit succ now.
+  destruct (C18_window greg (fold_left append es []) a b limit succ now C_greg_ok (C_wf_history es))
+    as (l & F & P & S).
+  exists l. split; [exact F|]. split; [|exact S].
+  eapply Permutation_trans; [exact P|]. apply C_perm_filter. apply C_all_history.
+Qed.
+Print Assumptions C18_window_history.
+
+(* ---- find(before=b, limit=n) and find(limit=n): the newest n entries of the
+   window (1980-01-01, b) resp. (1980-01-01, now); without limit: all of it ---- *)
+Theorem C18_newest : forall c j before limit succ now,
+  cal_ok c -> wf j -> (before <> None \/ limit <> None) ->
+  let b := match before with None => now | Some t => t end in
+  exists l, Permutation l (filter (in_window 0 b (status_code succ)) (all_entries j)) /\
+            StronglySorted key_ge l /\
+            Chron.find c j None before limit succ now
+            = Ok (match limit with None => l | Some n => firstn (Z.to_nat n) l end).
+Proof.
+  intros c j before limit succ now OK Hw Hs b. exists (full j 0 b (status_code succ)).
+  split; [apply C_full_perm; exact Hw|]. split; [apply C_full_sorted; exact Hw|].
+  apply C_find_upper; assumption.
+Qed.
+Print Assumptions C18_newest.
+
+(* ---- find(after=a): everything after a, up to now ---- *)
+Theorem C18_after : forall c j a succ now,
+  cal_ok c -> wf j ->
+  exists l, Chron.find c j (Some a) None None succ now = Ok l /\
+            Permutation l (filter (in_window a now (status_code succ)) (all_entries j)) /\
+            StronglySorted key_ge l.
+Proof.
+  intros c j a succ now OK Hw. exists (full j a now (status_code succ)).
+  split; [apply C_find_lower; exact OK|]. split; [apply C_full_perm|apply C_full_sorted]; exact Hw.
+Qed.
+Print Assumptions C18_after.
+
+(* ---- the day walk terminates within its fuel for every argument ---- *)
+Theorem C18_walk_terminates : forall c j after before limit succ now,
+  cal_ok c -> Chron.find c j after before limit succ now <> OutOfFuel.
+Proof. intros. apply C_find_fuel. assumption. Qed.
+Print Assumptions C18_walk_terminates.
+
+(* ---- the calendar the model is evaluated with obeys the laws (Gregorian
+   1980-01-01 .. 2100-12-31 by an exhaustive vm_compute check of every day,
+   trivial outside) ---- *)
+Theorem C18_calendar_ok : cal_ok greg.
+Proof. exact C_greg_ok. Qed.
+Print Assumptions C18_calendar_ok.
+
+(* ---- non-vacuity ---- *)
+(* the design-phase witness of the repaired defect: bounds at 10:00 and 09:00,
+   entries at 15:00 the day before and 08:00 on the day: both are returned *)
+Example C18_window_example :
+  wf ex_journal /\
+  ids (Chron.find greg ex_journal (Some (tick 2026 1 9 10 0)) (Some (tick 2026 1 10 9 0)) None true 0)
+  = [2; 1] /\
+  ids (Chron.find greg ex_journal None (Some (tick 2026 1 10 9 0)) (Some 3) true 0) = [2; 1; 3].
+Proof. split; [apply C_wf_history|split; vm_compute; reflexivity]. Qed.
+
+(* a second append to the same (day, run id) file keeps the first entry *)
+Example C18_append_example :
+  map (fun f => map e_id (f_entries f))
+      (append (append [] (mkE (tick 2026 1 9 15 0) 1 0 0 0 1)) (mkE (tick 2026 1 9 16 0) 1 0 0 1 5))
+  = [[1; 5]].
+Proof. vm_compute. reflexivity. Qed.
